@@ -161,9 +161,27 @@ pub trait PacketTrait: Serialize {
 
     /// Length in bytes used when calling `to_writer_with_header`.
     fn write_len_with_header(&self) -> usize {
-        let mut sum = self.packet_header().write_len();
-        sum += self.write_len();
-        sum
+        let original_header = self.packet_header();
+        let write_len = self.write_len();
+
+        // `to_writer_with_header` writes a normalized, fixed length header (unless the length is
+        // indeterminate), so the size of the stored header is not necessarily the size of the
+        // header that gets written (e.g. for packets that were read with partial body lengths).
+        let written_header_len = match (
+            original_header.packet_length().maybe_len(),
+            u32::try_from(write_len),
+        ) {
+            (Some(_), Ok(len)) => PacketHeader::from_parts(
+                original_header.version(),
+                original_header.tag(),
+                PacketLength::Fixed(len),
+            )
+            .map(|header| header.write_len())
+            .ok(),
+            _ => None,
+        };
+
+        written_header_len.unwrap_or_else(|| original_header.write_len()) + write_len
     }
 }
 
